@@ -81,25 +81,25 @@ Qed.
 
 (* ---- the four operators, for all operand values ---- *)
 
-Theorem and_spec a b : apply_go And a b = Some (VBool (spec_truthy a && spec_truthy b)).
+Theorem and_spec orc a b : apply_go orc And a b = Some (VBool (spec_truthy a && spec_truthy b)).
 Proof. cbn [apply_go]. rewrite !truthy_logic_spec. reflexivity. Qed.
 
-Theorem or_spec a b : apply_go Or a b = Some (VBool (spec_truthy a || spec_truthy b)).
+Theorem or_spec orc a b : apply_go orc Or a b = Some (VBool (spec_truthy a || spec_truthy b)).
 Proof. cbn [apply_go]. rewrite !truthy_logic_spec. reflexivity. Qed.
 
-Theorem elvis_spec a b :
-  is_neg_zero a = false -> apply_go Elvis a b = Some (if spec_truthy a then a else b).
+Theorem elvis_spec orc a b :
+  is_neg_zero a = false -> apply_go orc Elvis a b = Some (if spec_truthy a then a else b).
 Proof. intro H. cbn [apply_go]. rewrite (truthy_elvis_spec a H). reflexivity. Qed.
 
-Theorem nullco_spec a b :
-  apply_go NullCo a b = Some (match a with VNull => b | _ => a end).
+Theorem nullco_spec orc a b :
+  apply_go orc NullCo a b = Some (match a with VNull => b | _ => a end).
 Proof. reflexivity. Qed.
 
 (* ---- the whole expression language ---- *)
 
-Lemma apply_go_extends07 o a b v :
+Lemma apply_go_extends07 orc o a b v :
   (o = Elvis -> is_neg_zero a = false) ->
-  spec_apply07 o a b = Some v -> apply_go o a b = Some v.
+  spec_apply07 orc o a b = Some v -> apply_go orc o a b = Some v.
 Proof.
   intros Hz H. destruct o; cbn [spec_apply07] in H;
     try (apply apply_go_extends; exact H).
@@ -109,44 +109,44 @@ Proof.
   - rewrite nullco_spec. exact H.
 Qed.
 
-Lemma eval_tree_extends07 t : forall v,
-  negzero_elvis t = false ->
-  eval_tree spec_apply07 t = Some v -> eval_tree apply_go t = Some v.
+Lemma eval_tree_extends07 orc t : forall v,
+  negzero_elvis orc t = false ->
+  eval_tree (spec_apply07 orc) t = Some v -> eval_tree (apply_go orc) t = Some v.
 Proof.
   induction t as [w|o l IHl r IHr|t IH]; intros v Hz H; cbn [eval_tree negzero_elvis] in *.
   - exact H.
   - apply orb_false_iff in Hz as [Hz Hz3]. apply orb_false_iff in Hz as [Hz1 Hz2].
-    destruct (eval_tree spec_apply07 l) as [a|] eqn:El; [|discriminate].
-    destruct (eval_tree spec_apply07 r) as [b|] eqn:Er; [|discriminate].
+    destruct (eval_tree (spec_apply07 orc) l) as [a|] eqn:El; [|discriminate].
+    destruct (eval_tree (spec_apply07 orc) r) as [b|] eqn:Er; [|discriminate].
     rewrite (IHl a Hz1 eq_refl), (IHr b Hz2 eq_refl). cbn [lift_ap] in *.
     apply apply_go_extends07; [|exact H].
     intro Ho. subst o. exact Hz3.
   - unfold group_val in *.
-    destruct (eval_tree spec_apply07 t) as [w|] eqn:E; [|discriminate].
+    destruct (eval_tree (spec_apply07 orc) t) as [w|] eqn:E; [|discriminate].
     rewrite (IH w Hz eq_refl). exact H.
 Qed.
 
-Lemma negzero_elvis_top t v :
-  negzero_elvis t = false ->
-  eval_top spec_apply07 t = Some v -> eval_top apply_go t = Some v.
+Lemma negzero_elvis_top orc t v :
+  negzero_elvis orc t = false ->
+  eval_top (spec_apply07 orc) t = Some v -> eval_top (apply_go orc) t = Some v.
 Proof.
   unfold eval_top, group_val. intros Hz H.
-  destruct (eval_tree spec_apply07 t) as [w|] eqn:E; [|discriminate].
-  rewrite (eval_tree_extends07 t w Hz E). exact H.
+  destruct (eval_tree (spec_apply07 orc) t) as [w|] eqn:E; [|discriminate].
+  rewrite (eval_tree_extends07 orc t w Hz E). exact H.
 Qed.
 
 (* HEADLINE for C07 (expressions): outside known finding 1, the model returns
    the value the property prescribes for every expression over && || ?: ??,
    comparisons and arithmetic, any length and nesting. *)
-Theorem model_meets_spec07 ts :
-  classify (CaseExpr ts (obs_of (eval_expr ts))) = 0%N ->
-  spec_ok (CaseExpr ts (obs_of (eval_expr ts))) = true.
+Theorem model_meets_spec07 orc ts :
+  classify (CaseExpr ts orc (obs_of (eval_expr orc ts))) = 0%N ->
+  spec_ok (CaseExpr ts orc (obs_of (eval_expr orc ts))) = true.
 Proof.
   cbn [classify spec_ok]. unfold reference07.
   destruct (parse_expr ts) as [t|] eqn:Ep; [|reflexivity].
-  destruct (negzero_elvis t) eqn:Hz; [discriminate|]. intros _.
-  destruct (eval_top spec_apply07 t) as [v|] eqn:E; [|reflexivity].
-  rewrite (eval_expr_eq_tree ts t Ep). rewrite (negzero_elvis_top t v Hz E).
+  destruct (negzero_elvis orc t) eqn:Hz; [discriminate|]. intros _.
+  destruct (eval_top (spec_apply07 orc) t) as [v|] eqn:E; [|reflexivity].
+  rewrite (eval_expr_eq_tree orc ts t Ep). rewrite (negzero_elvis_top orc t v Hz E).
   apply obs_eqb_refl.
 Qed.
 
@@ -173,3 +173,107 @@ Qed.
 Theorem elvis_negzero_refuted :
   exists v, spec_ok (CaseTruth v (model_truth v)) = false.
 Proof. exists (VNum neg_zero). vm_compute. reflexivity. Qed.
+
+(* ---- statement-level builtins ---- *)
+
+Lemma is_true_spec c : (0 <= cd_exit c)%Z -> is_true c = spec_true c.
+Proof.
+  intro H. unfold is_true, spec_true.
+  destruct (0 <? cd_exit c)%Z eqn:E.
+  - unfold is_true_string. rewrite E. reflexivity.
+  - assert (cd_exit c = 0%Z) by (apply Z.ltb_ge in E; lia).
+    rewrite H0. apply is_true_string_spec.
+Qed.
+
+Lemma decide_pos c neg : (0 <= cd_exit c)%Z ->
+  ((is_true c && negb neg) || (negb (is_true c) && neg)) = holds neg c.
+Proof. intro H. rewrite (is_true_spec c H). unfold holds. destruct (spec_true c), neg; reflexivity. Qed.
+
+Lemma decide_neg c neg : (0 <= cd_exit c)%Z ->
+  ((negb (is_true c) && negb neg) || (is_true c && neg)) = negb (holds neg c).
+Proof. intro H. rewrite (is_true_spec c H). unfold holds. destruct (spec_true c), neg; reflexivity. Qed.
+
+Lemma decide_while c neg : (0 <= cd_exit c)%Z ->
+  ((negb neg && negb (is_true c)) || (neg && is_true c)) = negb (holds neg c).
+Proof. intro H. rewrite (is_true_spec c H). unfold holds. destruct (spec_true c), neg; reflexivity. Qed.
+
+Lemma in_domain_cons c cs : in_domain (c :: cs) = true -> (0 <= cd_exit c)%Z /\ in_domain cs = true.
+Proof. unfold in_domain. cbn [forallb]. intro H. apply andb_true_iff in H as [H1 H2]. apply Z.leb_le in H1. tauto. Qed.
+
+Lemma b_and_spec neg : forall cs n, in_domain cs = true ->
+  b_and neg cs n =
+  (if forallb (holds neg) cs then ((-1)%Z, (n + N.of_nat (length cs))%N)
+   else (1%Z, (n + N.succ (prefix_len (holds neg) cs))%N)).
+Proof.
+  induction cs as [|c cs IH]; intros n Hd.
+  - cbn. rewrite N.add_0_r. reflexivity.
+  - apply in_domain_cons in Hd as [Hc Hd]. cbn [b_and forallb prefix_len length].
+    rewrite (decide_neg c neg Hc). destruct (holds neg c); cbn [negb andb].
+    + rewrite (IH (N.succ n) Hd). destruct (forallb (holds neg) cs); f_equal; lia.
+    + f_equal. lia.
+Qed.
+
+Lemma b_or_spec neg : forall cs n, in_domain cs = true ->
+  b_or neg cs n =
+  (if existsb (holds neg) cs
+   then ((-1)%Z, (n + N.succ (prefix_len (fun c => negb (holds neg c)) cs))%N)
+   else (1%Z, (n + N.of_nat (length cs))%N)).
+Proof.
+  induction cs as [|c cs IH]; intros n Hd.
+  - cbn. rewrite N.add_0_r. reflexivity.
+  - apply in_domain_cons in Hd as [Hc Hd]. cbn [b_or existsb prefix_len length].
+    rewrite (decide_pos c neg Hc). destruct (holds neg c); cbn [negb orb].
+    + f_equal. lia.
+    + rewrite (IH (N.succ n) Hd). destruct (existsb (holds neg) cs); f_equal; lia.
+Qed.
+
+Lemma b_while_spec neg : forall cs, in_domain cs = true ->
+  b_while neg cs =
+  (if forallb (holds neg) cs then None else Some (prefix_len (holds neg) cs)).
+Proof.
+  induction cs as [|c cs IH]; intro Hd; [reflexivity|].
+  apply in_domain_cons in Hd as [Hc Hd]. cbn [b_while forallb prefix_len].
+  rewrite (decide_while c neg Hc). destruct (holds neg c); cbn [negb andb]; [|reflexivity].
+  rewrite (IH Hd). destruct (forallb (holds neg) cs); reflexivity.
+Qed.
+
+(* HEADLINE: if, !if, and, or, !and, !or, while, !while and ! each decide by the
+   one truthiness of (stdout, exit number) of their condition block — for every
+   list of condition results with non-negative exit numbers. *)
+Theorem truthy_uniform_builtins b neg cs :
+  in_domain cs = true -> run_builtin b neg cs = spec_builtin b neg cs.
+Proof.
+  intro Hd. destruct b; cbn [run_builtin spec_builtin].
+  - destruct cs as [|c [|c2 cs]]; try reflexivity.
+    apply in_domain_cons in Hd as [Hc _]. unfold b_if. rewrite (decide_pos c neg Hc). reflexivity.
+  - rewrite (b_and_spec neg cs 0 Hd). destruct (forallb (holds neg) cs); reflexivity.
+  - rewrite (b_or_spec neg cs 0 Hd). destruct (existsb (holds neg) cs); reflexivity.
+  - rewrite (b_while_spec neg cs Hd). destruct (forallb (holds neg) cs); reflexivity.
+  - destruct cs as [|c [|c2 cs]]; try reflexivity.
+    apply in_domain_cons in Hd as [Hc _]. unfold b_not. rewrite (is_true_spec c Hc). reflexivity.
+Qed.
+
+Lemma bobs_eqb_refl o : bobs_eqb o o = true.
+Proof.
+  unfold bobs_eqb. rewrite !Bool.eqb_reflx, Z.eqb_refl, N.eqb_refl. reflexivity.
+Qed.
+
+Theorem builtins_meet_spec b neg cs :
+  spec_ok (CaseBuiltin b neg cs (run_builtin b neg cs)) = true.
+Proof.
+  cbn [spec_ok]. destruct (in_domain cs) eqn:Hd; [|reflexivity].
+  rewrite (truthy_uniform_builtins b neg cs Hd). apply bobs_eqb_refl.
+Qed.
+
+(* a positive exit number makes the condition false whatever it printed; a
+   negative one (and/or's success marker) makes it true *)
+Lemma positive_exit_false c : (0 < cd_exit c)%Z -> is_true c = false.
+Proof. intro H. apply nonzero_exit_false. exact H. Qed.
+
+Lemma negative_exit_true c : (cd_exit c < 0)%Z -> is_true c = true.
+Proof.
+  intro H. unfold is_true, is_true_string.
+  assert (E1 : (0 <? cd_exit c)%Z = false) by (apply Z.ltb_ge; lia).
+  assert (E2 : (cd_exit c <? 0)%Z = true) by (apply Z.ltb_lt; lia).
+  rewrite E1, E2. reflexivity.
+Qed.
